@@ -414,9 +414,8 @@ def s1a_publication(chk: Check, proj: Project, w, reach) -> None:
                             for y in walk_no_nested(x.ast, enter_root=False):
                                 if isinstance(y, ast.Attribute) and isinstance(y.ctx, ast.Store) and isinstance(y.value, ast.Name) and y.value.id == obj and not (y.attr == attr):
                                     bad = (s, y)
-                                if isinstance(y, ast.Call) and any(isinstance(a, ast.Name) and a.id == obj for a in list(y.args) + [k.value for k in y.keywords]) and obj != "self":
-                                    bad = (s, y)
-                                if isinstance(y, ast.Call) and obj == "self" and isinstance(y.func, ast.Attribute) and isinstance(y.func.value, ast.Name) and y.func.value.id == "self" and x.kind != "return":
+                                # any further call means the initialisation is still going on after the flag was set
+                                if isinstance(y, ast.Call) and x.kind != "return":
                                     bad = (s, y)
                 if bad:
                     s, y = bad
